@@ -9,6 +9,7 @@ def shape_answer_clears_sections : Bool := true
 def shape_answer_filters_before_splice : Bool := true
 def shape_delegation_guard_first : Bool := true
 def shape_exchange_checks_question : Bool := true
+def shape_level_is_zone_depth : Bool := true
 def shape_lookup_applies_rule : Bool := true
 def shape_store_filters_before_entry : Bool := true
 def usable_local_probe : List Bool := [false, false, false, false, false]
